@@ -292,6 +292,11 @@ theorem fold_sim (x : Walk.CfiIn) (W : Cfi.Walker) (h : WalkerSim x W) (cfa : UI
 def seedFwd (a : Walk.Arch) (fwd : List (Cfi.Name × UInt64)) (cfa ra : UInt64) : List (Cfi.Name × UInt64) :=
   (utf8 a.ipName, ra) :: Cfi.eraseName ((utf8 a.spName, cfa) :: Cfi.eraseName fwd (utf8 a.spName)) (utf8 a.ipName)
 
+/-- it is the list the C06 model's `stack` protocol entry (the real `CfiStackWalker` through
+    `walk_stack`) starts its second walk with -/
+theorem seedFwd_eq_storeCfaRa (a : Walk.Arch) (fwd : List (Cfi.Name × UInt64)) (cfa ra : UInt64) :
+    seedFwd a fwd cfa ra = Cfi.storeCfaRa (utf8 a.spName) (utf8 a.ipName) fwd cfa ra := rfl
+
 theorem lookup_seedFwd (a : Walk.Arch) (fwd : List (Cfi.Name × UInt64)) (cfa ra : UInt64) (s : String) :
     Cfi.lookupName (seedFwd a fwd cfa ra) (utf8 s) =
       if s = a.ipName then some ra else if s = a.spName then some cfa else Cfi.lookupName fwd (utf8 s) := by
